@@ -14,8 +14,8 @@ INF = 1000000
 _G = {}
 
 
-def emit_kernel(n, pa, pb, sis):
-    cfg = tlc.cfg_text({"N": n, "PA": pa, "PB": pb, "SIS": sis}, view="View", action_constraints=["Emit"],
+def emit_kernel(n, pa, pb, sis, directed=False):
+    cfg = tlc.cfg_text({"N": n, "PA": pa, "PB": pb, "SIS": sis, "Directed": directed}, view="View", action_constraints=["Emit"],
                        invariants=["KernelSums", "StopsIffNoInfected", "Conserved"],
                        properties=["OneStepInfectious", "NewlyInfectedHaveInfectiousNeighbour"])
     return tlc.run_tlc("DiscreteEpi", cfg, workers=1, coverage=True, timeout=3000)
@@ -228,6 +228,40 @@ def main():
                             got = r["dist"].get(tuple(sorted(K)), 0.0)
                             if abs(got - perc[(m, k)]) > 1e-12:
                                 chk.violation("percolate_network|probability|", "kept set %r has probability %r, bond percolation gives %r" % (K, got, perc[(m, k)]), {"task": t})
+    # directed contact networks: u infects v along an arc u -> v only (3 nodes, every digraph)
+    for sis, sims in ((False, ["basic_discrete_SIR"]), (True, ["basic_discrete_SIS"])):
+        kres = emit_kernel(3, pa, pb, sis, directed=True)
+        chk.add_tlc("DiscreteEpi kernel on every digraph, N=3 p=%d/%d %s" % (pa, pb, "SIS" if sis else "SIR"), kres)
+        if kres.violation:
+            chk.violation("spec|DiscreteEpi(directed)|" + kres.violation[:60], "TLC: " + kres.violation, {})
+        sg = {}
+        for rec in kres.printed("E"):
+            _, w, st, st2, ev = rec
+            sg.setdefault((tuple(w), tuple(st)), []).append((frozenset(ev[0]["__set__"]), ev[1], ev[2], tuple(st2)))
+        discrete_b1.SG = sg
+        tasks = []
+        for w in itertools.product((0, 1), repeat=6):
+            if chk.tier == "quick" and sum(w) not in (1, 2, 3, 6) :
+                continue
+            for st0 in itertools.product(("S", "I") if sis else ("S", "I", "R"), repeat=3):
+                if "I" not in st0:
+                    continue
+                for sim in sims:
+                    for full in (True, False):
+                        tasks.append({"sim": sim, "w": w, "st0": st0, "p": pa / pb, "full": full, "directed": True,
+                                      "horizon": 1 if sis else None, "tmin": 0})
+                        if sis and st0.count("I") == 1:
+                            tasks.append({"sim": sim, "w": w, "st0": st0, "p": pa / pb, "full": full, "directed": True, "horizon": 2, "tmin": 3})
+        done = common.pool_run(discrete_b1.run_scenario, tasks, lambda r: bool(r["problems"]))
+        for t, r in done:
+            chk.cov["evaluations"] += r["leaves"]
+            chk.cov["traces_validated_against_impl"] += r["leaves"]
+            if r["events"] > 0:
+                chk.cov["distinct_nontrivial"] += 1
+            chk.part(t["sim"] + " (directed)", scenarios=1, leaves=r["leaves"])
+            for p in r["problems"]:
+                chk.violation("%s|%s|%s" % (t["sim"], p["kind"], ("full-data" if t["full"] else "arrays") + "+directed"),
+                              p["detail"] + (" after steps %r" % (p["history"],) if "history" in p else ""), {"task": t, "problem": p})
     chk.sample({"rule_scenario": rules[len(rules) // 2], "reference_infection_times": refs[len(rules) // 2][0]})
     rule = ("part 1: discrete_SIR under table-driven deterministic transmission rules and recovery tests (exhaustive on 3-node path/triangle, seeded random on 3-8 nodes, finite tmax, initial recovereds): "
             "TLC checks generation loop = BFS and emits infection/recovery times, replayed in both return modes; part 2: TLC emits the exact Reed-Frost / discrete SIS transition matrix for every graph on N nodes "
